@@ -563,3 +563,47 @@ package interpreter
 //@   opt index-fn 1
 //@   ensures[C05.opcodeRoll_err] (= (= err nil) (and (>= (old (len (. t dstack stk))) 1) (old (spec.top_ok t 0)) (<= 0 (spec.clamp32 (old (spec.top_num t 0)))) (< (spec.clamp32 (old (spec.top_num t 0))) (- (old (len (. t dstack stk))) 1))))
 //@   ensures[C05.opcodeRoll] (=> (= err nil) (and (= (len (. t dstack stk)) (- (old (len (. t dstack stk))) 1)) (= (at (. t dstack stk) (- (len (. t dstack stk)) 1)) (old (at (. t dstack stk) (- (- (len (. t dstack stk)) 2) (spec.clamp32 (spec.top_num t 0)))))) (forall ((k Int)) (=> (and (<= 0 k) (< k (- (- (len (. t dstack stk)) 1) (spec.clamp32 (old (spec.top_num t 0)))))) (= (at (. t dstack stk) k) (old (at (. t dstack stk) k))))) (forall ((k Int)) (=> (and (<= (- (- (len (. t dstack stk)) 1) (spec.clamp32 (old (spec.top_num t 0)))) k) (< k (- (len (. t dstack stk)) 1))) (= (at (. t dstack stk) k) (old (at (. t dstack stk) (+ k 1))))))))
+
+// ---- C06 (partial): the encoding rules that the DER / low-S / strict-encoding flags switch on ----
+//@ func scriptflag.Flag.HasFlag
+//@   pure
+//@   ensures[C06.has_flag_bit] (=> (or (= flag 64) (= flag 128) (= flag 2048) (= flag 4096) (= flag 8192)) (= result (= (mod (div s flag) 2) 1)))
+//@ func scriptflag.Flag.HasAny
+//@   bytes array
+//@   pure
+//@   ensures[C06.has_any_der] (=> (and (= (len flags) 3) (= (at flags 0) 64) (= (at flags 1) 128) (= (at flags 2) 4096)) (= result (or (= (mod (div s 64) 2) 1) (= (mod (div s 128) 2) 1) (= (mod (div s 4096) 2) 1))))
+//@   loop 0 invariant (=> (and (= (len flags) 3) (= (at flags 0) 64) (= (at flags 1) 128) (= (at flags 2) 4096)) (and (=> (>= rangeindex 0) (not (= (mod (div s 64) 2) 1))) (=> (>= rangeindex 1) (not (= (mod (div s 128) 2) 1))) (=> (>= rangeindex 2) (not (= (mod (div s 4096) 2) 1)))))
+//@ func interpreter.(*thread).hasFlag
+//@   pure
+//@   ensures[C06.thread_has_flag] (=> (or (= flag 64) (= flag 128) (= flag 2048) (= flag 4096) (= flag 8192)) (= result (spec.flag_on t flag)))
+//@ func interpreter.(*thread).hasAny
+//@   bytes array
+//@   pure
+//@   ensures[C06.thread_has_any_der] (=> (and (= (len ff) 3) (= (at ff 0) 64) (= (at ff 1) 128) (= (at ff 2) 4096)) (= result (or (spec.flag_on t 64) (spec.flag_on t 128) (spec.flag_on t 4096))))
+//@ func interpreter.(*thread).checkPubKeyEncoding
+//@   bytes array
+//@   ensures[C06.pubkey_encoding] (= (= err nil) (or (not (spec.flag_on t 4096)) (and (= (len pubKey) 33) (or (= (at pubKey 0) 2) (= (at pubKey 0) 3))) (and (= (len pubKey) 65) (= (at pubKey 0) 4))))
+//@ func interpreter.(*thread).checkSignatureEncoding
+//@   bytes array
+//@   ensures[C06.sig_encoding_off] (=> (not (or (spec.flag_on t 64) (spec.flag_on t 128) (spec.flag_on t 4096))) (= err nil))
+//@   ensures[C06.sig_encoding_der] (=> (and (or (spec.flag_on t 64) (spec.flag_on t 4096)) (not (spec.flag_on t 128))) (= (= err nil) (spec.der_ok sig)))
+//@   ensures[C06.sig_encoding_needs_der] (=> (and (= err nil) (or (spec.flag_on t 64) (spec.flag_on t 128) (spec.flag_on t 4096))) (spec.der_ok sig))
+// strict hash-type encoding: base type 1..3 in bits 0..5 (bit 7 = ANYONECANPAY is free); under the BIP143 flag the FORKID
+// bit (6) must be set; otherwise a set FORKID bit needs the EnableSighashForkID flag
+//@ func interpreter.(*thread).checkHashTypeEncoding
+//@   ensures[C06.hashtype_encoding] (= (= err nil) (or (not (spec.flag_on t 4096)) (and (<= 1 (mod shf 64)) (<= (mod shf 64) 3) (ite (spec.flag_on t 8192) (= (mod (div shf 64) 2) 1) (=> (= (mod (div shf 64) 2) 1) (spec.flag_on t 2048))))))
+// script code: thread.subScript returns the current script from sub_skip(t) on; OP_CODESEPARATOR must make that the
+// opcode after itself. The second clause is a `check`: it FAILS for a separator at offset 0 (lastCodeSep = 0 also means
+// "no separator"): known finding, see known_findings.json.
+//@ func interpreter.(*thread).subScript
+//@   pure
+//@   requires (and (< (. t scriptIdx) (len (. t scripts))) (<= (spec.sub_skip t) (len (at (. t scripts) (. t scriptIdx)))))
+//@   ensures[C06.subscript] (and (= (arr result) (arr (at (. t scripts) (. t scriptIdx)))) (= (off result) (+ (off (at (. t scripts) (. t scriptIdx))) (spec.sub_skip t))) (= (len result) (- (len (at (. t scripts) (. t scriptIdx))) (spec.sub_skip t))))
+//@ func interpreter.opcodeCodeSeparator
+//@   ensures[C06.codesep_sets] (and (= err nil) (= (. t lastCodeSep) (. t scriptOff)))
+//@   check[C06.codesep_script_code_starts_after] (= (spec.sub_skip t) (+ (. t scriptOff) 1))
+// OP_HASH256 (the one hash opcode computed by a modelled function, crypto.Sha256d)
+//@ func interpreter.opcodeHash256
+//@   bytes token
+//@   opt forall-patterns 1
+//@   ensures[C05.opcodeHash256] (and (= (= err nil) (>= (old (len (. t dstack stk))) 1)) (=> (= err nil) (spec.stack_res_bytes t 1 (bsha256d (old (spec.top_bytes t 0))))))
